@@ -4,6 +4,7 @@ import (
 	"encoding/json"
 	"flag"
 	"fmt"
+	"go/ast"
 	"os"
 	"path/filepath"
 	"regexp"
@@ -448,4 +449,29 @@ func sortedStrings(m map[string]int) []string {
 	}
 	sort.Strings(xs)
 	return xs
+}
+
+// paramMayBeWritten: does the contract allow the function to write the bytes of this slice parameter?
+func (e *Enc) paramMayBeWritten(name string) bool {
+	if e.top == nil || e.top.con == nil {
+		return true
+	}
+	con := e.top.con
+	if con.ModifiesAll {
+		return true
+	}
+	for _, mi := range con.Modifies {
+		switch mi.Kind {
+		case modMem:
+			return true
+		case modBytes:
+			if id, ok := mi.Expr.(*ast.Ident); ok && id.Name == name {
+				return true
+			}
+			if _, ok := mi.Expr.(*ast.Ident); !ok {
+				return true
+			}
+		}
+	}
+	return false
 }
